@@ -174,6 +174,37 @@ def corr(ctx):
                             ops.append(Op("rtoq -", "-", nontrivial=False, prop_ok=(impl == fresh),
                                           info={"site": "modulations:%s.history" % inst.kind, "config": dict(hcfg, bits=bstr(bits), impl=impl, fresh=fresh)}))
                         ctx.count("history_" + inst.kind)
+        # evaluation mode, ONE reset, then several calls with odd / even symbol counts on the same objects: in evaluation mode a call must
+        # not leave anything behind, so every call answers like a pristine pair
+        if inst.memory:
+            rng = ctx.rng
+            try:
+                for m_ in (inst.mod, inst.demod):
+                    m_.eval()
+                    if hasattr(m_, "reset_state"):
+                        m_.reset_state()
+                for call, nsy in enumerate((3, 1, 5, 2, 7)):
+                    bits = [rng.getrandbits(1) for _ in range(inst.b * nsy)]
+                    try:
+                        with torch.no_grad():
+                            impl = bstr(inst.demod(inst.mod(torch.tensor([bits], dtype=torch.float32))).reshape(1, -1)[0].tolist())
+                    except (ValueError, RuntimeError, IndexError):
+                        impl = "reject"
+                    try:
+                        pm, pd = copy.deepcopy(pristine[name][0]), copy.deepcopy(pristine[name][1])
+                        pm.eval(); pd.eval()
+                        with torch.no_grad():
+                            fresh = bstr(pd(pm(torch.tensor([bits], dtype=torch.float32))).reshape(1, -1)[0].tolist())
+                    except (ValueError, RuntimeError, IndexError):
+                        fresh = "reject"
+                    ops.append(Op("rtoq -", "-", nontrivial=False, prop_ok=(impl == fresh),
+                                  info={"site": "modulations:%s.history" % inst.kind, "config": dict(cfg, layout="after-history", history="evaluation mode, one reset, call %d (%d symbols) without a reset in between" % (call, nsy), bits=bstr(bits), impl=impl, fresh=fresh)}))
+                    ctx.count("history_eval_chain")
+            finally:
+                for m_ in (inst.mod, inst.demod):
+                    m_.eval()
+                    if hasattr(m_, "reset_state"):
+                        m_.reset_state()
         # rejection of a non-multiple length
         if inst.b > 1 and inst.kind in ("qpsk", "psk", "qam", "pam"):
             bits = [1] * (inst.b + 1)
